@@ -32,6 +32,8 @@ pub enum Dg {
     Big(u16, u8),
     /// a query for names the store is likely to hold (colliding alphabet of C13)
     StoreQuery(Vec<AQuestion>),
+    /// a query for the owner of the record bundle (kept apart from StoreQuery, whose names are re-drawn)
+    BundleQuery(Vec<AQuestion>),
     /// a short body over C01's 12-symbol alphabet behind a header whose id octets, read as label lengths, span the
     /// datagram up to its last octet (0: as a query, 1: as a response)
     Spanning(Vec<u8>, bool),
@@ -73,7 +75,7 @@ pub fn render_dg(d: &Dg) -> Vec<u8> {
             }
             encode_message(&gen::fit(p), &EncOpts::compressed())
         }
-        Dg::StoreQuery(qs) => {
+        Dg::StoreQuery(qs) | Dg::BundleQuery(qs) => {
             let p = APacket { id: 77, questions: qs.clone(), ..Default::default() };
             encode_message(&p, &EncOpts::compressed())
         }
@@ -119,7 +121,7 @@ fn dg_strategy() -> BoxedStrategy<Dg> {
         2 => (any::<u16>(), any::<u16>(), 0u8..3, proptest::sample::select(vec![255u16, 12, 33, 1])).prop_map(|(a, b, c, d)| Dg::DictQuery(a, b, c, d)),
         2 => (vec(0u8..5, 0..=5), 1u8..=3, prop_oneof![3 => Just(0u16), 1 => Just(1u16), 1 => Just(0xff00u16)], any::<bool>()).prop_map(|(k, s, e, r)| Dg::Arrangement(k, s, e, r)),
         2 => super::c01::graph_strategy(Tier::Quick).prop_map(|mut g| { g.repeat_last = g.repeat_last.min(300); Dg::Graph(g) }),
-        4 => vec((super::c13::coll_record(), proptest::sample::select(vec![255u16, 1, 33, 16]), any::<bool>()), 1..3)
+        4 => vec((super::c13::coll_record(), proptest::sample::select(vec![255u16, 1, 33, 16, 28, 47]), any::<bool>()), 1..3)
             .prop_map(|v| Dg::StoreQuery(v.into_iter().map(|(r, qtype, unicast)| AQuestion { name: r.name, qtype, qclass: 255, unicast }).collect())),
     ]
     .boxed()
@@ -134,8 +136,48 @@ fn strategy(_t: Tier) -> BoxedStrategy<In> {
         2 => gen::arecord().prop_map(Op::AddAuth),
         1 => gen::arecord().prop_map(Op::AddCached),
     ];
-    (vec(any_op, 0..8), vec(dg_strategy(), 1..20), any::<bool>())
-        .prop_map(|(ops, mut dgs, ch)| {
+    // one owner holding a bundle of records: addresses of one family, of both or of none, next to records of other
+    // types (type codes beyond 255, codes without a typed variant - opaque data under a code that HAS a typed variant
+    // is not a record the model knows -, empty RDATA, NSEC, TXT, SRV), and queries for that
+    // owner with each QTYPE a responder may treat specially (either address family, ANY, NSEC, the types present)
+    let extra = prop_oneof![
+        2 => gen::typed_n(257, super::c13::coll_name()),
+        2 => (proptest::sample::select(vec![256u16, 258, 999, 32768, 65280, 65534]), vec(any::<u8>(), 1..6)).prop_map(|(code, d)| ARData::Unknown { code, data: Bytes(d) }),
+        1 => proptest::sample::select(vec![257u16, 256, 1000, 47, 16]).prop_map(|code| ARData::Empty { code }),
+        1 => gen::typed_n(47, super::c13::coll_name()),
+        1 => gen::typed_n(16, super::c13::coll_name()),
+        1 => gen::typed_n(33, super::c13::coll_name()),
+        1 => gen::typed_n(64, super::c13::coll_name()),
+    ];
+    let bundle = proptest::option::weighted(
+        0.4,
+        (super::c13::coll_name(), 0u8..4, vec(extra, 0..4), vec(proptest::sample::select(vec![1u16, 28, 255, 47, 257, 999, 33, 16]), 1..4), any::<bool>()),
+    );
+    (vec(any_op, 0..8), vec(dg_strategy(), 1..20), any::<bool>(), bundle)
+        .prop_map(|(mut ops, mut dgs, ch, bundle)| {
+            if let Some((owner, family, extras, qtypes, cached_twin)) = bundle {
+                let rec = |rdata: ARData| ARecord { name: owner.clone(), class: 1, cache_flush: false, ttl: 120, rdata };
+                let mut b = Vec::new();
+                if family & 1 != 0 {
+                    b.push(Op::AddAuth(rec(ARData::Typed { code: 1, fields: vec![Val::U32(0x0a000063)] })));
+                }
+                if family & 2 != 0 {
+                    b.push(Op::AddAuth(rec(ARData::Typed { code: 28, fields: vec![Val::Bytes(Bytes(vec![0xfe; 16]))] })));
+                }
+                for (i, x) in extras.into_iter().enumerate() {
+                    b.push(if cached_twin && i == 0 { Op::AddCached(rec(x)) } else { Op::AddAuth(rec(x)) });
+                }
+                // the bundle goes in after the first half of the history, its queries among the datagrams
+                let at = ops.len() / 2;
+                for (k, o) in b.into_iter().enumerate() {
+                    ops.insert(at + k, o);
+                }
+                let n = dgs.len();
+                for (k, qtype) in qtypes.into_iter().enumerate() {
+                    let q = Dg::BundleQuery(vec![AQuestion { name: owner.clone(), qtype, qclass: if k % 2 == 0 { 1 } else { 255 }, unicast: k % 3 == 2 }]);
+                    dgs.insert((k * 7 + 1) % (n + 1), q);
+                }
+            }
             // queries for the store ask for names its history mentions (owners, also of removed records, and targets)
             let mentioned: Vec<AName> = ops
                 .iter()
